@@ -15,6 +15,7 @@
    their own; the writer never emits them. *)
 From Coq Require Import NArith List Bool.
 From DV Require Import Base.Outcome Base.Bytes C06.Gen.
+From DV Require C17.Model.
 Import ListNotations.
 Local Open Scope N_scope.
 
@@ -539,6 +540,7 @@ Inductive fkind :=
 | FRtype               (* a record type: mnemonic or TYPEnnn (Rtype Display / Rtype::scan) *)
 | FTypes               (* rest of the entry: record types (RtypeBitmap: NSEC, NSEC3), possibly none *)
 | FSalt                (* NSEC3 salt: a block of its own holding "-" or a Base16 word *)
+| FTimestamp           (* RRSIG signature time: decimal u32, or YYYYMMDDHHmmSS (Timestamp::scan) *)
 | FIp4                 (* IPv4 address: Ipv4Addr Display / scan_octets + Ipv4Addr::from_str *)
 | FQuoted              (* quoted octets without a length limit (DisplayQuoted::from_slice / scan_octets: CAA value) *)
 | FRest.               (* rest of the entry: the word texts of all remaining tokens, concatenated
@@ -587,6 +589,33 @@ Fixpoint word_text (s : list sym) : outcome text :=
   | _ => Err E_symbol
   end.
 
+(* Timestamp::scan: at most 10 characters: u32 FromStr; exactly 14: %Y%m%d%H%M%S in UTC,
+   seconds since the epoch `as u32` (C17's date model); anything else is an error *)
+Definition digits2 (a b : N) : N := (a - 48) * 10 + (b - 48).
+Definition leap_year (y : N) : bool := ((y mod 4 =? 0) && negb (y mod 100 =? 0)) || (y mod 400 =? 0).
+Definition days_in_month (y m : N) : N :=
+  if m =? 2 then (if leap_year y then 29 else 28)
+  else if (m =? 4) || (m =? 6) || (m =? 9) || (m =? 11) then 30 else 31.
+Definition parse_date14 (s : text) : option N :=
+  match s with
+  | [y1; y2; y3; y4; m1; m2; d1; d2; h1; h2; i1; i2; s1; s2] =>
+      if all_digits s then
+        let y := digits2 y1 y2 * 100 + digits2 y3 y4 in
+        let mo := digits2 m1 m2 in let d := digits2 d1 d2 in
+        let h := digits2 h1 h2 in let mi := digits2 i1 i2 in let se := digits2 s1 s2 in
+        if (1 <=? mo) && (mo <=? 12) && (1 <=? d) && (d <=? days_in_month y mo) && (h <=? 23) && (mi <=? 59) && (se <=? 59)
+           (* jiff's Timestamp ends at 9999-12-30T22:00:00Z *)
+           && (DV.C17.Model.epoch_secs (Z.of_N y) (Z.of_N mo) (Z.of_N d) (Z.of_N h) (Z.of_N mi) (Z.of_N se) <=? 253402207200)%Z
+        then Some (DV.C17.Model.c17_date y mo d h mi se) else None
+      else None
+  | _ => None
+  end.
+Definition read_timestamp (t : tok) : outcome N :=
+  do s <- read_ascii t;
+  if Nat.leb (length s) 10 then
+    match parse_uint_str 4294967295 s with Some n => Ok n | None => Err E_number end
+  else match parse_date14 s with Some n => Ok n | None => Err E_number end.
+
 (* Rtype::scan: scan_ascii_str + FromStr *)
 Definition read_rtype (t : tok) : outcome N :=
   do s <- read_ascii t;
@@ -611,6 +640,7 @@ Definition read_field (k : fkind) (ts : list tok) : outcome (fval * list tok) :=
           | FCharstr => do b <- read_charstr t; Ok (VCharstr b, r)
           | FWord => do w <- word_text (t_syms t); Ok (VWord w, r)
           | FRtype => do n <- read_rtype t; Ok (VRtype n, r)
+          | FTimestamp => do n <- read_timestamp t; Ok (VUint n, r)
           | FSalt => do w <- word_text (t_syms t);
                      Ok (VSalt (match w with [45] => [] | _ => w end), r)
           | FQuoted => do b <- read_octets t; Ok (VQuoted b, r)
@@ -690,7 +720,8 @@ Definition fkind_of (w r : N) : option fkind :=
   match r with
   | 1 | 13 => Some (FUint 255)
   | 2 => Some (FUint 65535)
-  | 3 | 10 => Some (FUint 4294967295)
+  | 3 => Some (FUint 4294967295)
+  | 10 => Some FTimestamp
   | 4 => Some FName
   | 5 => if w =? 8 then Some FWord else Some FCharstr
   | 6 | 7 => Some FRest
@@ -734,7 +765,7 @@ Fixpoint find_schema (l : list schema) (code : N) : option schema :=
 
 Definition val_matches (k : fkind) (v : fval) : bool :=
   match k, v with
-  | FUint _, VUint _ | FName, VName _ | FCharstr, VCharstr _ | FWord, VWord _
+  | FUint _, VUint _ | FTimestamp, VUint _ | FName, VName _ | FCharstr, VCharstr _ | FWord, VWord _
   | FCharstrs, VCharstrs _ | FRest, VRest _ | FRtype, VRtype _ | FTypes, VTypes _ | FSalt, VSalt _
   | FQuoted, VQuoted _ | FIp4, VIp4 _ => true
   | _, _ => false
@@ -883,6 +914,33 @@ Definition c06_hinfo (which : N) (q : bool) (tok : text) : outcome bytes :=
       if charstr_latest <? len (fst x) then Err E_charstr else Ok (fst x)
   | None => Err E_tokens
   end.
+
+(* the unsigned scanners on raw token text: which = 0: u8 (". 0 IN CAA <tok> a \"\""),
+   1: u16 (". 0 IN MX <tok> ."), 2: u32 (". 0 IN SOA . . <tok> 0 0 0 0"), 3: Ttl (". 0 IN SOA . . 0 <tok> 0 0 0") *)
+Definition c06_uint (which : N) (tok : text) : outcome N :=
+  let sp := [32] in
+  let head := [46; 32; 48; 32; 73; 78; 32] in
+  let line :=
+    if which =? 0 then head ++ [67; 65; 65; 32] ++ tok ++ [32; 97; 32; 34; 34; ch_lf]
+    else if which =? 1 then head ++ [77; 88; 32] ++ tok ++ [32; 46; ch_lf]
+    else if which =? 2 then head ++ [83; 79; 65; 32; 46; 32; 46; 32] ++ tok ++ [32; 48; 32; 48; 32; 48; 32; 48; ch_lf]
+    else head ++ [83; 79; 65; 32; 46; 32; 46; 32; 48; 32] ++ tok ++ [32; 48; 32; 48; 32; 48; ch_lf] in
+  let want := if which =? 0 then 7%nat else if which =? 1 then 6%nat else 11%nat in
+  let idx := if which =? 0 then 4%nat else if which =? 1 then 4%nat else if which =? 2 then 6%nat else 7%nat in
+  let max := if which =? 0 then 255 else if which =? 1 then 65535 else 4294967295 in
+  do ts <- tokenize line;
+  if negb (Nat.eqb (length ts) want) then Err E_tokens else
+  match nth_error ts 4, nth_error ts idx with
+  | Some t5, Some t => if is_marker t5 then Err E_generic else read_uint max t
+  | _, _ => Err E_tokens
+  end.
+
+(* ". 0 IN RRSIG A 8 0 0 <tok> 0 0 . AA==\n": the expiration time *)
+Definition c06_ts (tok : text) : outcome N :=
+  do ts <- tokenize ([46; 32; 48; 32; 73; 78; 32; 82; 82; 83; 73; 71; 32; 65; 32; 56; 32; 48; 32; 48; 32] ++ tok ++
+                     [32; 48; 32; 48; 32; 46; 32; 65; 65; 61; 61; ch_lf]);
+  if negb (Nat.eqb (length ts) 13) then Err E_tokens else
+  match nth_error ts 8 with Some t => read_timestamp t | None => Err E_tokens end.
 
 (* ". 0 IN NS <token>\n": scan_name / convert_label with the fast path on the raw text *)
 Definition c06_nstext (tok : text) : outcome (list bytes) :=
